@@ -74,6 +74,10 @@ def run_driver(repo, config="default", target=None):
     out = os.path.join(CACHE, "facts", key)
     done = os.path.join(out, "DONE")
     if os.path.exists(done):
+        try:
+            os.utime(out, None)  # most recently used: never the first candidate of a concurrent prune
+        except OSError:
+            pass
         return out
     lock = open(os.path.join(CACHE, "driver.lock"), "w")
     fcntl.flock(lock, fcntl.LOCK_EX)
@@ -129,20 +133,31 @@ def run_driver(repo, config="default", target=None):
         lock.close()
 
 
-def _prune_cache(keep, max_entries=12):
+def _prune_cache(keep, max_entries=40, min_age_s=1800):
+    """drop the least recently used fact directories beyond `max_entries`; never one used in the last half hour
+    (another check may be reading it right now)"""
     base = os.path.join(CACHE, "facts")
+    now = time.time()
     ents = [os.path.join(base, d) for d in os.listdir(base)]
     ents = [e for e in ents if e != keep]
     ents.sort(key=lambda e: os.path.getmtime(e))
-    while len(ents) >= max_entries:
+    while len(ents) >= max_entries and now - os.path.getmtime(ents[0]) > min_age_s:
         shutil.rmtree(ents.pop(0), ignore_errors=True)
 
 
 def load(repo="/repo", config="default"):
-    d = run_driver(repo, config)
-    units = {}
-    for f in sorted(os.listdir(d)):
-        if f.startswith("facts-") and f.endswith(".json"):
-            with open(os.path.join(d, f)) as fh:
-                units[f[len("facts-"):-len(".json")]] = json.load(fh)
-    return units
+    for attempt in (0, 1):
+        d = run_driver(repo, config)
+        units = {}
+        try:
+            for f in sorted(os.listdir(d)):
+                if f.startswith("facts-") and f.endswith(".json"):
+                    with open(os.path.join(d, f)) as fh:
+                        units[f[len("facts-"):-len(".json")]] = json.load(fh)
+            if "svgdx-lib" in units:
+                return units
+        except (FileNotFoundError, json.JSONDecodeError):
+            pass
+        # the directory vanished or is incomplete (removed by a concurrent run): rebuild once
+        shutil.rmtree(d, ignore_errors=True)
+    raise RuntimeError("fact files unavailable after a rebuild")
